@@ -188,10 +188,9 @@ impl<'tcx> Ex<'tcx> {
                 // evaluated string constant (literal or named const)
                 let val = match c.const_ {
                     mir::Const::Val(cv, _) => Some(cv),
-                    mir::Const::Unevaluated(uv, _) if uv.promoted.is_none() => {
-                        c.const_.eval(tcx, env, c.span).ok()
-                    }
-                    _ => None,
+                    mir::Const::Unevaluated(uv, _) if uv.promoted.is_some() => None,
+                    // named constants and pattern constants (valtrees)
+                    _ => c.const_.eval(tcx, env, c.span).ok(),
                 };
                 if let Some(cv) = val {
                     if let Some(bytes) = cv.try_get_slice_bytes_for_diagnostics(tcx) {
